@@ -9,6 +9,7 @@ import (
 	"bytes"
 	"encoding/json"
 	"fmt"
+	"strconv"
 	"os"
 	"os/exec"
 	"path/filepath"
@@ -26,7 +27,7 @@ import (
 // allocation budget per request up to handler entry: A + B*len(cookie value)
 const (
 	budgetA = 64 << 10
-	budgetB = 1024
+	budgetB = 256
 )
 
 const nWorkersB = 16
@@ -214,13 +215,29 @@ func (a *appB) judge(cs caseB, seam string, l *core.Local, sample bool) (rebuild
 	l.Add("evaluations", 1)
 	l.Add("b_requests_"+seam, 1)
 	inVal := sent
-	caseDoc := map[string]any{"part": "b", "seam": seam, "cookie_value_hex": hexs(sent), "cookie_len": len(sent), "form": cs.Desc, "transport": tr.Name,
-		"preceded_by": "valid 15-message cookie (keys STALE-KEY-nn, values STALE-VALUE-nn, levels 0x61.., alternating old-input flag)"}
+	extraDoc := map[string]any{}
+	mkCase := func() map[string]any {
+		d := map[string]any{"part": "b", "seam": seam, "cookie_value_hex": hexs(sent), "cookie_len": len(sent), "form": cs.Desc, "transport": tr.Name,
+			"preceded_by": "valid 15-message cookie (keys STALE-KEY-nn, values STALE-VALUE-nn, levels 0x61.., alternating old-input flag)"}
+		for k, v := range extraDoc {
+			d[k] = v
+		}
+		return d
+	}
+	// details are rendered only for the first case of a signature
+	viol := func(sig, what string, observed func() any, expected func() any) {
+		if _, dup := l.P.Violations[sig]; dup {
+			l.Violate(sig, what, nil, nil, nil)
+			return
+		}
+		l.Violate(sig, what, mkCase(), observed(), expected())
+	}
+	lit := func(v any) func() any { return func() any { return v } }
 	if r.panicked != nil {
 		ref := refDecodeValue(tr, inVal)
 		l.Outcome("b seam=" + seam + " panic")
-		l.Violate(fmt.Sprintf("b/panic ref=%s:%s seam=%s", ref.V, ref.Reason, seam), "decoding the cookie panics (fasthttp does not recover handler panics: the server process dies)",
-			caseDoc, fmt.Sprint(r.panicked), "no panic")
+		viol(fmt.Sprintf("b/panic ref=%s:%s seam=%s", ref.V, ref.Reason, seam), "decoding the cookie panics (fasthttp does not recover handler panics: the server process dies)",
+			lit(fmt.Sprint(r.panicked)), lit("no panic"))
 		return true
 	}
 	if seam == "wire" {
@@ -228,11 +245,11 @@ func (a *appB) judge(cs caseB, seam string, l *core.Local, sample bool) (rebuild
 		case !r.s.Ran:
 			// refused before the handler: nobody sees messages
 			ref := refDecodeValue(tr, inVal)
-			l.Outcome(fmt.Sprintf("b seam=wire status=%d handler-not-run ref=%s", r.status, ref.V))
+			l.Outcome("b seam=wire status=" + strconv.Itoa(r.status) + " handler-not-run ref=" + ref.V.String())
 			if transparent(inVal) && ref.V == vAccept && len(inVal) > wireValueMax {
 				l.Add("unspecified_skipped", 1) // header-size limits of the server are outside the statement
 			} else if transparent(inVal) && ref.V == vAccept {
-				l.Violate("b/accepted-cookie-refused-on-the-wire", "a well-formed cookie made of cookie-octets/high bytes is answered without running the handler", caseDoc, r.status, ref.Msgs)
+				viol("b/accepted-cookie-refused-on-the-wire", "a well-formed cookie made of cookie-octets/high bytes is answered without running the handler", lit(r.status), lit(ref.Msgs))
 			}
 			if ref.HasHeader {
 				l.Add("b_nontrivial", 1)
@@ -245,10 +262,10 @@ func (a *appB) judge(cs caseB, seam string, l *core.Local, sample bool) (rebuild
 			// bytes that have a meaning in the Cookie syntax (space, quotes, ';', ...): judge what the server says it received
 			l.Add("b_wire_value_reinterpreted_by_cookie_syntax", 1)
 			inVal = []byte(r.s.Cookie)
-			caseDoc["cookie_value_as_parsed_by_server_hex"] = hexs(inVal)
+			extraDoc["cookie_value_as_parsed_by_server_hex"] = hexs(inVal)
 		}
 	} else if r.s.Ran && r.s.Cookie != string(inVal) {
-		l.Violate("b/harness-seam-value-differs", "the request-header seam did not deliver the value (harness problem)", caseDoc, fmt.Sprintf("%q", r.s.Cookie), nil)
+		viol("b/harness-seam-value-differs", "the request-header seam did not deliver the value (harness problem)", lit(fmt.Sprintf("%q", r.s.Cookie)), lit(nil))
 		return false
 	}
 	ref := refDecodeValue(tr, inVal)
@@ -271,37 +288,38 @@ func (a *appB) judge(cs caseB, seam string, l *core.Local, sample bool) (rebuild
 	case ref.V == vReject:
 		gotKind = "decoded-prefix"
 	}
-	l.Outcome(fmt.Sprintf("b seam=%s status=%d ref=%s got=%s", seam, r.status, ref.V, gotKind))
-	obs := map[string]any{"status": r.status, "saw": trimSeen(r.s), "messages_seen": r.s.NMsgs, "old_inputs_seen": r.s.NOlds, "alloc_before_handler": r.decAlloc}
+	l.Outcome("b seam=" + seam + " status=" + strconv.Itoa(r.status) + " ref=" + ref.V.String() + " got=" + gotKind)
+	mkObs := func() any {
+		return map[string]any{"status": r.status, "saw": trimSeen(r.s), "messages_seen": r.s.NMsgs, "old_inputs_seen": r.s.NOlds, "alloc_before_handler": r.decAlloc, "kind": gotKind}
+	}
+	extraDoc["reference_verdict"] = ref.V.String() + ":" + ref.Reason
 	if sample {
-		l.Sample(map[string]any{"case": caseDoc, "reference": map[string]any{"verdict": ref.V.String(), "reason": ref.Reason, "decode": ref.Msgs}, "observed": obs})
+		l.Sample(map[string]any{"case": mkCase(), "reference": map[string]any{"verdict": ref.V.String(), "reason": ref.Reason, "decode": ref.Msgs}, "observed": mkObs()})
 	}
 	// ---- oracle ----
-	caseDoc["reference_verdict"] = ref.V.String() + ":" + ref.Reason
-	obs["kind"] = gotKind
-	want := map[string]any{"messages": wantF, "old_inputs": wantO}
+	want := func() any { return map[string]any{"messages": wantF, "old_inputs": wantO} }
+	wantOrNone := func() any { return map[string]any{"messages": wantF, "old_inputs": wantO, "or": "none"} }
 	switch ref.V {
 	case vReject:
 		if !none {
-			l.Violate(fmt.Sprintf("b/malformed-cookie-yields-messages class=%s seam=%s", rejectClass(ref.Reason), seam),
+			viol("b/malformed-cookie-yields-messages class="+rejectClass(ref.Reason)+" seam="+seam,
 				"a cookie value that is not a well-formed encoding yields messages (zero-valued, decoded prefix, or data of the previous request)",
-				caseDoc, obs, "no messages (reference: "+ref.Reason+")")
+				mkObs, lit("no messages (reference: "+ref.Reason+")"))
 		}
 	case vAccept, vLenient:
 		switch {
 		case exact && r.s.ProbeBad != "" && string(inVal) == string(sent):
-			l.Violate("b/message-by-key-disagrees seam="+seam, "Message(k)/OldInput(k) do not return the first message / old input of that key", caseDoc, r.s.ProbeBad, want)
+			viol("b/message-by-key-disagrees seam="+seam, "Message(k)/OldInput(k) do not return the first message / old input of that key", lit(r.s.ProbeBad), want)
 		case exact, none && ref.V == vLenient:
 		case ref.Absent && !none:
-			l.Violate("b/absent-field-reads-stale-data seam="+seam,
-				"an element that lacks some of the four fields shows data decoded for an earlier request instead of zero values",
-				caseDoc, obs, want)
+			viol("b/absent-field-reads-stale-data seam="+seam,
+				"an element that lacks some of the four fields shows data decoded for an earlier request (it may be refused or read with zero values)",
+				mkObs, wantOrNone)
 		case ref.V == vAccept:
-			l.Violate("b/well-formed-cookie-misdecoded seam="+seam, "a well-formed minimal encoding is not decoded to exactly its content", caseDoc, obs, want)
+			viol("b/well-formed-cookie-misdecoded seam="+seam, "a well-formed minimal encoding with all four fields is not decoded to exactly its content", mkObs, want)
 		default:
-			want["or"] = "none"
-			l.Violate("b/non-minimal-encoding-misdecoded seam="+seam,
-				"a well-formed, correctly typed, non-minimal encoding is neither refused nor decoded exactly", caseDoc, obs, want)
+			viol("b/non-minimal-encoding-misdecoded seam="+seam,
+				"a well-formed, correctly typed, non-minimal encoding is neither refused nor decoded exactly", mkObs, wantOrNone)
 		}
 	default:
 		l.Add("unspecified_skipped", 1)
@@ -313,8 +331,8 @@ func (a *appB) judge(cs caseB, seam string, l *core.Local, sample bool) (rebuild
 		} else if len(pl) > 0 && pl[0] == 0xdd {
 			form = "array32"
 		}
-		l.Violate(fmt.Sprintf("b/alloc-over-budget header=%s seam=%s", form, seam),
-			"allocation before the handler runs exceeds A + B*len(cookie) (A=64KiB, B=1KiB/byte)", caseDoc, obs, fmt.Sprintf("<= %d bytes", lim))
+		viol("b/alloc-over-budget header="+form+" seam="+seam,
+			"allocation before the handler runs exceeds A + B*len(cookie) (A=64KiB, B=256 B/byte)", mkObs, lit(fmt.Sprintf("<= %d bytes", lim)))
 	}
 	return ref.HasHeader && ref.Announced > 15
 }
@@ -446,7 +464,7 @@ func runPartB(r *core.Run) map[string]any {
 		"seams":                 []string{"wire", "hdr"},
 		"cookie_transport":      theTransport.Name,
 		"hostile_size_cases":    len(scs),
-		"alloc_budget":          "64KiB + 1KiB*len(value), measured from request start to handler entry",
+		"alloc_budget":          "64KiB + 256*len(value), measured from request start to handler entry",
 		"size_child_vmem_limit": fmt.Sprintf("%d KiB (ulimit -v)", childVMemKiB),
 	}
 }
@@ -528,10 +546,10 @@ func runSizeCases(r *core.Run, scs []sizeCase) {
 		r.Add("evaluations", 1)
 		r.Add("b_nontrivial", 1)
 		r.Outcome(fmt.Sprintf("b size seam=%s process-died stage=%s", sc.Seam, res.stage))
-		r.Violate(fmt.Sprintf("b/process-death announced=%s stage=%s seam=%s", sizeBucket(sc.N), res.stage, sc.Seam),
+		r.Violate(fmt.Sprintf("b/process-death announced=%s seam=%s", sizeBucket(sc.N), sc.Seam),
 			"a few-byte cookie kills the server process (unrecoverable runtime error while decoding / exposing the announced elements) under a 2 GiB address-space limit",
 			map[string]any{"part": "b-size", "seam": sc.Seam, "cookie_value_hex": hexs(theTransport.enc(sc.value())), "cookie_len": len(theTransport.enc(sc.value())), "transport": theTransport.Name, "announced_elements": sc.N, "elements_present": sc.Elem},
-			map[string]any{"exit": res.err, "stderr_head": res.stderr, "last_stage": res.stage, "allocated_before_handler": res.alloc}, "process survives; no messages; allocation <= 64KiB + 1KiB*len")
+			map[string]any{"exit": res.err, "stderr_head": res.stderr, "last_stage": res.stage, "allocated_before_handler": res.alloc}, "process survives; no messages; allocation <= 64KiB + 256*len")
 	}
 }
 
